@@ -11,9 +11,20 @@
     [rp_tol] of the real decrease of the criterion and >= min_impurity_decrease; every leaf
     predicts a label that occurs among, and has maximal weight among, the training samples
     reaching it; importances non-negative and summing to one when there is a split; no mergeable
-    sibling leaves. *)
+    sibling leaves.
+    T2 (split search): [best_split] is the Gallina transliteration of the search for the best
+    split of one node (for every feature the sweep over its presorted column); [split_candidate
+    .. mask tab f sv i] (C14/ProofsSplit.v) says declaratively whether the split of feature [f]
+    between positions i and i+1 of its presorted column [sv] is ADMISSIBLE as the code defines it:
+    position i+1 exists; the row at position i belongs to the node (mask); the values at positions i
+    and i+1 differ by at least F::cast(1e-5) (the row at i+1 need not belong to the node); after
+    moving the node's rows among positions 0..i from the right to the left side, the running right
+    weight (total - w - w ...) and the running left weight (0 + w + w ...) are both not below
+    min_weight_leaf.  It then yields Some (f, threshold, score) with the midpoint rule for the
+    threshold and score = wr/total * imp(right table) + (1 - wr/total) * imp(left table).
+    [split_candidates] lists the admissible candidates in the order the search visits them. *)
 From Coq Require Import List NArith QArith Qreals Reals.
-From LinfaVerif Require Import Common.Num Common.QF C14.Model C14.Proofs.
+From LinfaVerif Require Import Common.Num Common.QF C14.Model C14.Proofs C14.ProofsSplit.
 Import ListNotations.
 Local Close Scope Q_scope.
 Local Open Scope R_scope.
@@ -124,3 +135,43 @@ Proof.
   intros W X ow ox cast imp H xs ys ws ncls nfeat t Hy Hl1 Hl2 Hne E le x.
   exact (fit_predicts_training_label ow ox cast imp H xs ys ws ncls Hy Hl1 Hl2 nfeat t Hne E le x).
 Qed.
+
+(** T2. the split search returns an admissible candidate of minimal score: over the reals (any
+    criterion [imp], any data), the (feature, threshold, score) chosen by [best_split] is an admissible
+    candidate split and no admissible candidate of any feature at any position has a smaller score;
+    it returns nothing exactly when no split is admissible *)
+Theorem best_split_minimises_score :
+  forall (imp : freq_tab (W := R) -> R) (H : hyper (W := R) (X := R)) ys ws ncls sorted mask tab,
+  match best_split R_ops R_ops imp H ys ws ncls sorted mask tab with
+  | None => forall f sv i, nth_error sorted f = Some sv ->
+                           split_candidate R_ops R_ops imp H ys ws ncls mask tab f sv i = None
+  | Some (bf, thr, s) =>
+      (exists sv i, nth_error sorted bf = Some sv /\
+                    split_candidate R_ops R_ops imp H ys ws ncls mask tab bf sv i = Some (bf, thr, s)) /\
+      (forall f sv i f' thr' s', nth_error sorted f = Some sv ->
+         split_candidate R_ops R_ops imp H ys ws ncls mask tab f sv i = Some (f', thr', s') -> s <= s')
+  end.
+Proof. exact best_split_minimal_R. Qed.
+
+(** ... and, for every arithmetic whose `<` on scores is a strict weak order (the reals, exact
+    rationals, floats without NaN), it is the FIRST candidate of minimal score in the order of the
+    search (features ascending, positions of the presorted column ascending): the strict `<` of the
+    code keeps the earliest of several equally good splits *)
+Theorem best_split_is_first_minimal_candidate :
+  forall W X (ow : NumOps W) (ox : NumOps X) imp H ys ws ncls, strict_weak_order ow ->
+  forall sorted mask tab,
+  match best_split ow ox imp H ys ws ncls sorted mask tab with
+  | None => split_candidates ow ox imp H ys ws ncls sorted mask tab = []
+  | Some c =>
+      exists l1 l2, split_candidates ow ox imp H ys ws ncls sorted mask tab = l1 ++ c :: l2 /\
+        (forall c', In c' l1 -> ltb ow (score c) (score c') = true) /\
+        (forall c', In c' l2 -> ltb ow (score c') (score c) = false)
+  end.
+Proof. intros W X ow ox imp H ys ws ncls SW sorted mask tab. exact (best_split_first_minimal ow ox imp H ys ws ncls SW sorted mask tab). Qed.
+
+(** the candidate list is exactly the set of admissible (feature, position) pairs *)
+Theorem split_candidates_are_the_admissible_splits :
+  forall W X (ow : NumOps W) (ox : NumOps X) imp H ys ws ncls sorted mask tab c,
+  In c (split_candidates ow ox imp H ys ws ncls sorted mask tab) <->
+  exists f sv i, nth_error sorted f = Some sv /\ split_candidate ow ox imp H ys ws ncls mask tab f sv i = Some c.
+Proof. intros W X ow ox imp H ys ws ncls sorted mask tab c. exact (in_split_candidates ow ox imp H ys ws ncls sorted mask tab c). Qed.
